@@ -1,33 +1,44 @@
 (* C05 — Program image equals the sequential layout of its statements.  Statements only; proofs in
-   Asm/Layout{Proofs,Eval,Instr,Dict,Sim,Step,Final}.v.
+   Asm/Layout{Proofs,Eval,Instr,Dict,Sim,Step,Final}.v (image = reference, success assumed) and
+   Asm/Layout{EvalC,InstrC,Prog,ProgFinal,Bytes,Text,Check}.v (acceptance, statement bytes, source text).
    Model: Asm/CtxModel.v (statement loop `run_items`/`step`, end-of-file tasks, close_segment, finalize, `pipeline`),
-   oracle: Asm/LayoutSpec.v (`layout_spec`: two passes; pass 2 evaluates every value in the FINAL symbol table).
+   oracle: Asm/LayoutSpec.v (`layout_spec`: two passes; pass 2 evaluates every value in the FINAL symbol table) and
+   Asm/LayoutWf.v (`no_collision`: regions do not collide).
 
-   PARTIAL.  Proved below (C05_layout_partial) for the following class of programs, starting from the parsed statement list:
-   every single-file program for which the reference layout is defined (labels, .addr, .align, .const, .du8/.du16/.du32,
-   .dstr, .dhex and instruction statements; the operands of .addr/.align/.const use earlier symbols; values in range), with
-   any number of regions in any address order, and
+   PARTIAL.  Everything below is proved for the following class of single-file programs (C05_class / C05_class_def):
+   labels, .addr, .align, .const, .du8/.du16/.du32, .dstr, .dhex and instruction statements, any number of regions in any
+   address order, and
    * .du8/.du16/.du32 of ANY expression: evaluated at once, or deferred because a label / .const is defined LATER
      (same region, another region, before or after a region switch);
    * instruction statements: any mnemonic and operand forms when every symbol they mention is defined EARLIER in the file;
      a statement mentioning a LATER symbol must be a B<cond> / BL whose target expression has a checked 64-bit value in the
-     final table (Expr/Denote.den64);
+     final table (Expr/Denote.den64); CPSIE/CPSID/DMB/DSB/ISB with any operand (never looked up);
    * no .dfile statement (and no .include/.global/.import/.export: outside the oracle's domain, C14).
-   For such a program: if the pipeline reports success without diagnostics, its regions are exactly the maximal runs of
-   the dictionary { address + i |-> byte i } of the reference's statements - nothing else, no placeholder left where a
-   deferred value was resolved (the reference has 0xBE only as .align padding), every deferred statement carries the bytes
-   of its value in the FINAL table (= the bytes it would have had, had the definition come first).
+   Proved for the class:
+   * C05_layout_partial: if the pipeline reports success without diagnostics, its regions are exactly the maximal runs of the
+     dictionary { address + i |-> byte i } of the reference's statements (success is a hypothesis);
+   * C05_accepts_partial / C05_layout_wf_partial: success is NOT a hypothesis - a program that is well-formed per the
+     reference (layout_spec defined: sizes, addresses below 2^32, operands of .addr/.align/.const valued, names fresh,
+     values in range, instructions encodable in the final table; no_collision: no byte of a statement and no .addr target on
+     a byte of an earlier statement) is assembled WITHOUT any diagnostic and its image is the reference image;
+   * C05_no_placeholder_partial: that image holds at the address of every statement exactly the bytes of its value in the
+     final table (no 0xBE placeholder left where a deferred value was resolved) and nothing outside the statements;
+   * C05_order_independent_partial: a .du8/.du16/.du32 holds the little-endian bytes of its expression's value in the FINAL
+     table, whether the symbols are defined before or after it;
+   * C05_text_partial / C05_text_spelled_partial: the same from source TEXT (characters; any separators incl. comments;
+     canonical or free token spelling, redundant parentheses) through C09's character-level round trip;
+   * C05_labels_partial, C05_label_next_item: the context's table = the reference's final table; a label = address of the
+     next placed byte.
    Not proved (covered by the correspondence stream of props/C05.json: the implementation's image is compared with
    layout_spec on every successful program and with the model on every program):
-   * C05_layout for the full class: deferred instruction statements other than B<cond>/BL (ADR / LDR literal / immediates
-     naming a later .const), .dfile, .include;
-   * C05_order_independent / C05_no_placeholder as statements of their own (inside the class they are consequences of
-     C05_layout_partial, the reference being evaluated in the final table; C05_staged_after_failure is the expression-level
-     fact they rest on). *)
+   * deferred instruction statements other than B<cond>/BL (ADR / LDR literal / immediates naming a later .const);
+   * .dfile (the model reads fs (resolve_path current-file name), the reference fs name; chunked write) and .include. *)
 From Coq Require Import ZArith NArith List Bool String.
 From Trion Require Import Text.Types Text.ParseModel Expr.I64 Expr.EvalModel Expr.Denote Expr.C08Sound Arm.DisplayModel Arm.AsmStmtModel
   Mem.MapModel Mem.MapProofs
-  Asm.CtxModel Asm.CtxProofs Asm.LayoutSpec Asm.SegProofs Asm.LayoutProofs Asm.Ctx06Proofs Asm.LayoutEval Asm.LayoutInstr Asm.LayoutStep Asm.LayoutFinal.
+  Asm.CtxModel Asm.CtxProofs Asm.LayoutSpec Asm.LayoutWf Asm.SegProofs Asm.LayoutProofs Asm.Ctx06Proofs Asm.LayoutEval Asm.LayoutInstr Asm.LayoutStep Asm.LayoutFinal
+  Asm.LayoutProgFinal Asm.LayoutBytes Asm.LayoutText Asm.LayoutCheck Mem.DictSpec Text.Render Text.ShowSpec.
+From Trion Require Text.ParseProofs.
 Import ListNotations.
 Open Scope N_scope.
 
@@ -36,7 +47,8 @@ Open Scope N_scope.
      stmt_ok E ek (label)              = True
      stmt_ok E ek (directive name ..)  = name is not "dfile"
      stmt_ok E ek (instruction n args) = every identifier in args is a register or defined in ek (known_in)
-                                         \/ n is a B<cond>/BL mnemonic and every operand has a den64 value in E.
+                                         \/ n is a B<cond>/BL mnemonic and every operand has a den64 value in E
+                                         \/ n is CPSIE/CPSID/DMB/DSB/ISB (no_eval: the operand is a bare identifier, never looked up).
    The two definitions are restated here so that the statement below can be read without the proof files. *)
 Theorem C05_class_def : forall fs E els,
   C05_class fs E els <->
@@ -48,6 +60,7 @@ Theorem C05_class_def : forall fs E els,
          (forall a, In a args -> forall n, In n (LayoutEval.idents a) ->
             CtxModel.is_register n = true \/ exists v, env_get (p_env s0) n = Some v)
          \/ (exists t, template name = Some t /\ is_branch t = true /\ forall a, In a args -> den64 (rho E) a <> None)
+         \/ (exists t, template name = Some t /\ no_eval t = true)
      end).
 Proof.
   intros fs E els. unfold C05_class, class_from, stmt_ok, known_in, known, LayoutSim.lkE.
@@ -67,6 +80,94 @@ Theorem C05_layout_partial : forall fs path text els placed env regions,
   pipeline fs path text = Done Success [] regions ->
   regions = image_of placed.
 Proof. exact layout_general. Qed.
+
+(* Acceptance (the converse direction): a program of the class that is WELL-FORMED PER THE REFERENCE is assembled without
+   any diagnostic.  Well-formed = layout_spec is defined (pass 1: every statement has a size and an address below 2^32,
+   .addr/.align/.const operands have values in the table so far, names are fresh and not registers; pass 2: every
+   .du8/.du16/.du32 value is in range, every instruction statement assembles and encodes in the final table) and
+   Asm/LayoutWf.no_collision (an .addr never selects an address that holds a byte of an earlier statement; no byte of a
+   statement falls on a byte of an earlier statement). *)
+Theorem C05_accepts_partial : forall fs path text els placed env,
+  parse_source text = Parsed (map IOk els) None ->
+  layout_spec fs (map e_val els) = Some (placed, env) ->
+  C05_class fs env els ->
+  no_collision fs (map e_val els) ->
+  exists regions, pipeline fs path text = Done Success [] regions.
+Proof. exact pipeline_accepts. Qed.
+
+(* ... so success is no longer a hypothesis: for every program of the class that is well-formed per the reference, the
+   pipeline's result IS the reference image, without diagnostics *)
+Theorem C05_layout_wf_partial : forall fs path text els placed env,
+  parse_source text = Parsed (map IOk els) None ->
+  layout_spec fs (map e_val els) = Some (placed, env) ->
+  C05_class fs env els ->
+  no_collision fs (map e_val els) ->
+  pipeline fs path text = Done Success [] (image_of placed).
+Proof. exact layout_accepts. Qed.
+
+(* No placeholder left, nothing else: the image is the runs of a dictionary that holds, at the address of EVERY reference
+   statement, exactly the bytes pass 2 computed for it in the final table (for a deferred statement: the bytes of its
+   value, not the 0xBE placeholder; the reference has 0xBE only as .align padding), and no byte outside the statements.
+   image_dict placed = the dictionary { address + i |-> byte i } of the placed statements; image_of = runs of it. *)
+Theorem C05_no_placeholder_partial : forall fs path text els placed env,
+  parse_source text = Parsed (map IOk els) None ->
+  layout_spec fs (map e_val els) = Some (placed, env) -> C05_class fs env els -> no_collision fs (map e_val els) ->
+  pipeline fs path text = Done Success [] (runs (image_dict placed)) /\
+  (forall a bs ids, In (a, bs, ids) placed -> forall x, a <= x -> x < a + MapModel.len bs ->
+     d_get (image_dict placed) x = nth_error bs (N.to_nat (x - a))) /\
+  (forall x, d_get (image_dict placed) x <> None -> exists a bs ids, In (a, bs, ids) placed /\ a <= x /\ x < a + MapModel.len bs).
+Proof. exact no_placeholder. Qed.
+
+(* Order independence: every .du8/.du16/.du32 statement (at the address a pass 1 has reached before it) holds the
+   little-endian bytes of the value its expression has in the FINAL table env - the same bytes whether the labels and
+   constants it mentions are defined before or after it, in the same or in another region. *)
+Theorem C05_order_independent_partial : forall fs path text els placed env,
+  parse_source text = Parsed (map IOk els) None ->
+  layout_spec fs (map e_val els) = Some (placed, env) -> C05_class fs env els -> no_collision fs (map e_val els) ->
+  pipeline fs path text = Done Success [] (runs (image_dict placed)) /\
+  forall pre name e post s0 a k,
+    map e_val els = pre ++ EDirective name [e] :: post -> dir_of name = Some (DData k) ->
+    pass1 fs (mkP1 None [] []) pre = Some s0 -> p_cur s0 = Some a ->
+    exists v, den64 (rho env) e = Some v /\ (0 <= v <= dk_max k)%Z /\
+      forall x, a <= x -> x < a + dk_size k ->
+        d_get (image_dict placed) x = nth_error (le_n (dk_size k) (Z.to_N v)) (N.to_nat (x - a)).
+Proof. exact order_independent. Qed.
+
+(* From source TEXT (C09's character-level round trip discharges the parse hypothesis): statements written as characters
+   with any separators (white space, line comments, block comments) - canonical token spelling ... *)
+Theorem C05_class_v_def : forall fs E stmts,
+  C05_class_v fs E stmts <->
+  (forall pre e post s0, stmts = pre ++ e :: post -> pass1 fs (mkP1 None [] []) pre = Some s0 ->
+     match e with
+     | ELabel _ => True
+     | EDirective name _ => dir_of name <> Some DFile
+     | EInstruction name args =>
+         (forall a, In a args -> forall n, In n (LayoutEval.idents a) ->
+            CtxModel.is_register n = true \/ exists v, env_get (p_env s0) n = Some v)
+         \/ (exists t, template name = Some t /\ is_branch t = true /\ forall a, In a args -> den64 (rho E) a <> None)
+         \/ (exists t, template name = Some t /\ no_eval t = true)
+     end).
+Proof.
+  intros fs E stmts. unfold C05_class_v, stmt_ok, known_in, known, LayoutSim.lkE.
+  split; intros H pre e post s0 H1 H2; specialize (H pre e post s0 H1 H2); destruct e; auto;
+    (destruct H as [H|H]; [left|right; exact H]); intros a Ha n Hn; destruct (H a Ha n Hn) as [R|(v & F)]; auto; right.
+  - destruct (env_get (p_env s0) n) as [w|]; [eauto|discriminate].
+  - exists v. rewrite F. reflexivity.
+Qed.
+
+Theorem C05_text_partial : forall fs path stmts seps placed env,
+  forallb writable_stmt stmts = true -> seps_ok (render_stmts stmts) seps ->
+  layout_spec fs stmts = Some (placed, env) -> C05_class_v fs env stmts -> no_collision fs stmts ->
+  pipeline fs path (show (render_stmts stmts) seps) = Done Success [] (image_of placed).
+Proof. exact text_layout. Qed.
+
+(* ... and with a free choice of spelling per token (radix, digit case, leading zeros, character literals, string
+   escapes: ShowSpec.wtok) and redundant parentheses anywhere (ParseProofs.RendStmts) *)
+Theorem C05_text_spelled_partial : forall fs path stmts ws seps placed env,
+  ParseProofs.RendStmts stmts (map wtok_val ws) -> Forall wtok_ok ws -> wseps_ok ws seps ->
+  layout_spec fs stmts = Some (placed, env) -> C05_class_v fs env stmts -> no_collision fs stmts ->
+  pipeline fs path (showw ws seps) = Done Success [] (image_of placed).
+Proof. exact textw_layout. Qed.
 
 (* Labels and constants: at the end of the statement loop the context's table is the reference's final table
    (a success of the loop without diagnostics is all that is assumed of the context) ... *)
@@ -127,19 +228,35 @@ Theorem C05_evaluate_agrees : forall lk isr a,
   end.
 Proof. exact evaluate_mut_agrees. Qed.
 
+(* the two hypotheses of the acceptance theorems have executable (sufficient) checks: Asm/LayoutWf.nc_check walks pass 1
+   and tests every address of every new item / every .addr target against the items so far; LayoutCheck.class_check
+   tests stmt_ok with the table pass 1 has reached *)
+Theorem C05_no_collision_check : forall fs prog, nc_check fs (mkP1 None [] []) prog = true -> no_collision fs prog.
+Proof. exact nc_check_sound. Qed.
+
+Theorem C05_class_check : forall fs E prog, class_check fs E (mkP1 None [] []) prog = true -> C05_class_v fs E prog.
+Proof. exact class_check_sound. Qed.
+
 Open Scope string_scope.
-(* non-vacuity: forward label + region switch + definition; the pipeline's image and the two-pass reference agree *)
+(* non-vacuity: forward branch (deferred), DMB SY (operand never looked up), .align padding, region switch, a .du32 of a
+   forward label plus a forward constant; the pipeline's image and the two-pass reference agree, and the program satisfies
+   the hypotheses of C05_layout_wf_partial / C05_text_partial (class and no_collision, by their executable checks) *)
 Theorem C05_examples :
   let src := bytes_of_string in
   let nofs : str -> option (list N) := fun _ => None in
-  let t := src ".addr 0x100; B later; .addr 0x200; NOP; later: .du32 later;" in
-  pipeline nofs (src "root.asm") t = Done Success [] [(0x100, 0x101, [127; 224]); (0x200, 0x205, [0; 191; 2; 2; 0; 0])]
+  let t := src ".addr 0x100; B later; DMB SY; .align 4; .addr 0x200; NOP; later: .du32 later + k; .const k, 2;" in
+  pipeline nofs (src "root.asm") t
+    = Done Success [] [(0x100, 0x107, [127; 224; 191; 243; 95; 143; 190; 190]); (0x200, 0x205, [0; 191; 4; 2; 0; 0])]
   /\ match parse_source t with
      | Parsed items None =>
-         option_map (fun r => (map (fun x => (fst (fst x), snd (fst x))) (fst r), image_of (fst r)))
-           (layout_spec nofs (flat_map (fun i => match i with ParseModel.IOk e => [e_val e] | _ => [] end) items))
-         = Some ([(0x100, [127; 224]); (0x200, [0; 191]); (0x202, [2; 2; 0; 0])],
-                 [(0x100, 0x101, [127; 224]); (0x200, 0x205, [0; 191; 2; 2; 0; 0])])
+         let stmts := flat_map (fun i => match i with ParseModel.IOk e => [e_val e] | _ => [] end) items in
+         option_map (fun r => (map (fun x => (fst (fst x), snd (fst x))) (fst r), image_of (fst r))) (layout_spec nofs stmts)
+         = Some ([(0x100, [127; 224]); (0x102, [191; 243; 95; 143]); (0x106, [190; 190]); (0x200, [0; 191]); (0x202, [4; 2; 0; 0])],
+                 [(0x100, 0x107, [127; 224; 191; 243; 95; 143; 190; 190]); (0x200, 0x205, [0; 191; 4; 2; 0; 0])])
+         /\ match layout_spec nofs stmts with
+            | Some (_, env) => class_check nofs env (mkP1 None [] []) stmts = true /\ nc_check nofs (mkP1 None [] []) stmts = true
+            | None => False
+            end
      | _ => False
      end.
-Proof. vm_compute. split; reflexivity. Qed.
+Proof. vm_compute. repeat split; reflexivity. Qed.
